@@ -10,6 +10,7 @@ import Rare.Proofs.C15MultiTail
 import Rare.Proofs.C15TraceTail
 import Rare.Proofs.C15Trunc
 import Rare.Proofs.C15Starve
+import Rare.Proofs.C15Api
 import Rare.Model.C15Wiring
 import Rare.Gen.C15
 /-!
@@ -1051,6 +1052,69 @@ theorem multi_no_starvation (fs : List Multi.Follower) (B : Nat) {s : Multi.MSt}
   exact ⟨s', h1, h2, h4⟩
 
 end Wiring
+
+/-! ## `Read` / `Drain` / `Close` called from one goroutine (`Rare.C15.Api`, op `api`) -/
+
+section Api
+open Rare.C15.Api
+
+/-- **api_stream_in_place.**  For every initial content and every sequence of `Read(buf)` (any buffer sizes),
+    `Drain()`, `Close()` and appends issued from one goroutine: the bytes returned since the last `Drain`
+    (since the start if there was none) are exactly the bytes of the file between that position and the
+    reader's offset – nothing lost, duplicated or reordered, also across `Close`. -/
+theorem api_stream_in_place (content : Api.Bytes) (calls : List Call) :
+    let s := (Api.run (init content) calls).1
+    InPlaceOK s.content s.delivered s.start s.pos :=
+  inv_run calls (init content) (inv_init content)
+
+/-- Without a `Drain`, ghost-free: the concatenation of what the `Read` calls returned is a prefix of the
+    file's final content (`extract c 0 pos`). -/
+theorem api_reads_are_prefix (content : Api.Bytes) (calls : List Call) (hnd : calls.all noDrain = true) :
+    let r := Api.run (init content) calls
+    bytesOf r.2 = extract r.1.content 0 r.1.pos ∧ bytesOf r.2 <+: r.1.content := by
+  intro r
+  have h1 := delivered_run calls (init content) hnd
+  have h2 := inv_run calls (init content) (inv_init content)
+  have hst : r.1.start = 0 := by
+    have : ∀ (cs : List Call) (s : St), cs.all noDrain = true → (Api.run s cs).1.start = s.start := by
+      intro cs
+      induction cs with
+      | nil => intro s _; rfl
+      | cons c cs ih =>
+        intro s hnd
+        simp only [List.all_cons, Bool.and_eq_true] at hnd
+        cases c with
+        | drain => simp [noDrain] at hnd
+        | close => simp only [Api.run, Api.step]; exact ih _ hnd.2
+        | append b => simp only [Api.run, Api.step]; exact ih _ hnd.2
+        | read n =>
+          rcases read_cases s n with h | h | h
+          · simp only [Api.run, h]; exact ih _ hnd.2
+          · simp only [Api.run, h]
+          · simp only [Api.run, h]; exact ih _ hnd.2
+    exact this calls (init content) hnd
+  have hd : bytesOf r.2 = r.1.delivered := by
+    have : (init content).delivered = [] := rfl
+    rw [h1, this]; rfl
+  obtain ⟨_, _, h5⟩ := h2
+  refine ⟨by rw [hd, h5, hst], ?_⟩
+  rw [hd, h5, hst]
+  simp only [extract, List.drop_zero, Nat.sub_zero]
+  exact List.take_prefix _ _
+
+/-- **api_closed_is_final.**  Once `Close` has been called, every later `Read` answers `io.EOF` without bytes
+    (also when bytes are unread), `Drain` and `Close` answer nil, and the reader stays closed. -/
+theorem api_closed_is_final (s : St) (hc : s.closed = true) (calls : List Call) :
+    (Api.run s calls).1.closed = true ∧ (∀ r ∈ (Api.run s calls).2, r = .eof ∨ r = .ok) ∧
+    ∀ n, Api.step s (.read n) = (s, .eof) := by
+  obtain ⟨a, b⟩ := closed_run calls s hc
+  exact ⟨a, b, fun n => by simp [Api.step, hc]⟩
+
+/-- Non-vacuity: `abc`, Read(2), append `de`, Drain, append `f`, Read(8), Close, Read(1). -/
+example : (Api.run (init [97, 98, 99]) [.read 2, .append [100, 101], .drain, .append [102], .read 8, .close, .read 1]).2 =
+    [.bytes [97, 98], .ok, .ok, .ok, .bytes [102], .ok, .eof] := by decide
+
+end Api
 
 /-! ## in-place truncation (copytruncate rotation) – outside the property, behaviour recorded -/
 
